@@ -4,14 +4,28 @@ Property theorems only (helper lemmas in Proofs/Dep.lean; models in Model/Requir
 
 Proved here for all inputs: the string-level facts the round trip rests on (name normalisation idempotent, extras
 list stable, spelling of names/extras irrelevant, quote style irrelevant, leading blanks irrelevant, path and
-`[@rev][#subdirectory=dir]` suffix of the restricted git-URL grammar read back exactly) and the dispatch step of
-`create_from_pep_508` for registry requirements.  The full statement is `dep_roundtrip_full_statement`; what is
-proved of it is `dep_roundtrip_partial` (the recogniser's result on the printed text is a hypothesis, as are the
-constraint and marker round trips owned by C15 and C13).  The statement is FALSE of the code without the side
-conditions named there: see the counterexample theorem (same witness as the check's corpus); three former
-counterexamples, repaired in poetry-core since, are kept as regression theorems.
+`[@rev][#subdirectory=dir]` suffix of the restricted git-URL grammar read back exactly); that the requirement
+recogniser reads printed text back (`recogniser_reads_printed_registry`, `recogniser_reads_printed_url`); and the round
+trip `create_from_pep_508 ∘ to_pep_508` on REGISTRY dependencies with no hypothesis left about recogniser, constraint
+parser/printer (C15's string-level theorems are used as proved) or marker parser/printer (C13's `print_ok` and C07's
+`union` soundness are used as proved): `dep_roundtrip_registry_identical` (`*`, plain ranges, single versions: the very
+same constraint comes back), `dep_roundtrip_registry_ne` (`!=V`: an equivalent constraint), and
+`dep_roundtrip_registry_marker` (markers of C13's full comparison-operator domain: the marker read back validates
+exactly as the original on every environment of the domain).
+The full statement is `dep_roundtrip_full_statement`.  NOT proved of it: (1) the URL and VCS kinds beyond the
+recogniser (`urlsplit` on the printed URL and the whole-URL inverse of the git grammar, `giturl_inverse_full_statement`);
+(2) constraints the printer spells with a wildcard (`==X.*`, `!=X.*`) or as a disjunction; (3) dependencies that are
+members of an extra (`in_extras ≠ []`: the `extra == …` clause `to_pep_508` appends); (4) markers outside C13's domain
+(`in` / `not in`, `~=`, `platform_release`); (5) two side conditions on the printed text that are kept as hypotheses:
+no ` #` in it (`NoComment`; FALSE without it: the known finding `marker-literal-with-blank-hash-cut-as-comment`) and
+the marker text neither starts nor ends with a blank (`MarkerEnds`; true of every printed marker, not derived here).
+The statement is FALSE of the code without the side conditions named there: see the counterexample theorem (same
+witness as the check's corpus); three former counterexamples, repaired in poetry-core since, are kept as regression
+theorems.
 -/
-import PoetryVerif.Proofs.Dep
+import PoetryVerif.Proofs.DepConstraint
+import PoetryVerif.Proofs.DepMarker
+import PoetryVerif.Proofs.VRangeTextP
 
 set_option linter.unusedSimpArgs false
 set_option linter.unusedVariables false
@@ -119,7 +133,8 @@ def dep_roundtrip_full_statement : Prop :=
         (d.kind = .registry → ∀ v, d'.constraint.allows v = d.constraint.allows v) ∧
         (∀ E, d'.marker.validate E = d.marker.validate E)
 
-/-- **proved part**: once the recogniser has read the printed text of a registry dependency back into its tokens
+/-- **proved part, dispatch level** (kept: it is the step the theorems below compose with the recogniser): once the
+recogniser has read the printed text of a registry dependency back into its tokens
 (hypothesis `hreq…`: name = the pretty name, extras = the printed extras, no URL; the parse stream of the check ties the
 recogniser to lark on every run) the dispatch of `create_from_pep_508` rebuilds a registry dependency with the same
 normalised name, the same extras, the same kind and source, carrying the constraint and marker the requirement parser
@@ -149,6 +164,214 @@ theorem dep_roundtrip_partial (d : Dep) (req : Requirement) (h : WFDep d) (hk : 
 
 example : ∃ d, mkRegistry "Foo_Bar" VC.any ["a-b"] = .ok d ∧ WFDep d ∧ d.kind = .registry ∧ d.spec.sourceType = none :=
   ⟨_, rfl, ⟨by decide, by decide, by decide⟩, rfl, rfl⟩
+
+/-! ## the round trip on registry dependencies, recogniser and C15 / C13 hypotheses discharged -/
+
+/-- **the requirement recogniser reads printed text back** — `name[e1,e2] (tok,tok) ; marker` laid out as
+`to_pep_508` does, with identifier name/extras, printed spec tokens and an accepted marker text, gives exactly these
+pieces (what `dep_roundtrip_partial` had to assume as `hname`/`hext`/`hurl`/`hm`) -/
+theorem recogniser_reads_printed_registry (name : List Char) (es ts : List (List Char)) (mo : Option (List Char))
+    (so : Option Syn) (hn : Ident name) (he : ∀ e ∈ es, Ident e) (ht : ∀ t ∈ ts, SpecTok t) (hm : TailOK mo so) :
+    parseRaw (name ++ extrasText es ++ specsText ts ++ markerText mo) =
+      some (mkRaw name es (match ts with | [] => none | _ => some ts) none so) :=
+  parseRaw_registry name es ts mo so hn he ht hm
+
+/-- … and the direct-reference layout `name[e1,e2] @ url ; marker` (URL and VCS kinds) -/
+theorem recogniser_reads_printed_url (name : List Char) (es : List (List Char)) (u : List Char) (mo : Option (List Char))
+    (so : Option Syn) (hn : Ident name) (he : ∀ e ∈ es, Ident e) (hu : UriOK u) (hm : TailOK mo so) :
+    parseRaw (name ++ extrasText es ++ urlText (some u) ++ markerText mo) = some (mkRaw name es none (some u) so) :=
+  parseRaw_url name es u mo so hn he hu hm
+
+example : Ident "Foo_Bar".toList ∧ SpecTok ">=1.0".toList ∧ UriOK "https://example.com/a.zip".toList ∧ TailOK none none :=
+  ⟨⟨'F', "oo_Bar".toList, rfl, by decide, by decide⟩,
+   ⟨'>', '=', "1.0".toList, rfl, ['>', '='], "1.0".toList, rfl, rfl, by decide, by decide⟩,
+   ⟨⟨'h', _, rfl, by decide⟩, by decide⟩, trivial⟩
+
+/-- what is common to every class of constraint: the re-parsed dependency has the same name, extras, kind and source,
+and carries the constraint `parse_constraint` reads from the printed tokens -/
+theorem dep_roundtrip_registry_core (d : Dep) (ts : List (List Char)) (so : Option Syn) (t : String) (d' : Dep)
+    (h : RegWF d) (hr : createFromPep508 t = rebuildRegistry d.spec.prettyName.toList (d.spec.features.map String.toList) ts so)
+    (hd : createFromPep508 t = .ok d') :
+    d'.name = d.name ∧ d'.extras = d.extras ∧ d'.kind = Kind.textual d.kind ∧ sameSource d' d ∧
+      VParser.parseConstraint (ctextOf ts) = .ok d'.constraint ∧ RebuiltMarker so d'.marker := by
+  rw [hr] at hd
+  obtain ⟨a1, a2, a3, a4, a5, a6⟩ := rebuildRegistry_ok _ _ _ _ _ hd
+  refine ⟨?_, ?_, ?_, ?_, a5, a6⟩
+  · show d'.spec.name = d.spec.name
+    rw [a1, String.ofList_toList, h.name]
+  · show d'.spec.features = d.spec.features
+    rw [a2, map_ofList_toList, h.feats]
+  · rw [a3, h.kind]; rfl
+  · constructor <;> simp [Spec.isSameSourceAs, a4, h.src, truthy]
+
+/-- **round trip of a registry dependency without marker** (`*`, a plain range, a single version): `to_pep_508`
+succeeds, `create_from_pep_508` of its text succeeds, and the result has the same normalised name, the same extras,
+kind and source, THE SAME constraint (C15: identical re-parse) and no marker.  No hypothesis about the recogniser,
+the constraint parser or the printer remains; side conditions: `RegWF` (identifier name/extras, normalised, not a member
+of an extra), the bounds carry re-parsable texts (`TextOK`), the printed text has no ` #` (known finding). -/
+theorem dep_roundtrip_registry_identical (d : Dep) (ts : List (List Char)) (h : RegWF d)
+    (hcb : CBody d ts ∧ VParser.parseConstraint (ctextOf ts) = .ok d.constraint) (hstr : ∃ s, d.constraint.toStr = .ok s)
+    (hany : d.marker.isAny = true) (hpy : d.pythonVersions = "*")
+    (hnc : ∀ t, d.toPep508 = .ok t → NoComment t.toList) :
+    ∃ t d', d.toPep508 = .ok t ∧ createFromPep508 t = .ok d' ∧ d'.name = d.name ∧ d'.extras = d.extras ∧
+      d'.kind = Kind.textual d.kind ∧ sameSource d' d ∧ d'.constraint = d.constraint ∧ d'.marker = .any := by
+  obtain ⟨t, ht, hr⟩ := registry_print_reparse_nomarker d ts h hcb.1 hany hpy hnc
+  obtain ⟨s, hs⟩ := hstr
+  have hok : ∃ d', createFromPep508 t = .ok d' := by
+    rw [hr]
+    simp only [rebuildRegistry, hcb.2, mkRegistry, Spec.make, normalizeSourceUrl, truthy, mkDep, hs, bind, Except.bind,
+      pure, Except.pure, Bool.false_and, Bool.false_eq_true, if_false]
+    exact ⟨_, rfl⟩
+  obtain ⟨d', hd'⟩ := hok
+  obtain ⟨b1, b2, b3, b4, b5, b6⟩ := dep_roundtrip_registry_core d ts none t d' h hr hd'
+  rw [hcb.2] at b5
+  injection b5 with b5
+  exact ⟨t, d', ht, hd', b1, b2, b3, b4, b5.symm, b6⟩
+
+/-- the three classes with an identical re-parse -/
+theorem registry_class_any (d : Dep) (hc : d.constraint = VC.any) :
+    CBody d [] ∧ VParser.parseConstraint (ctextOf []) = .ok d.constraint := by
+  refine ⟨cbody_any d (by rw [hc]; rfl) (by intro v; rw [hc]; simp [VC.any]) (by intro rs; rw [hc]; simp [VC.any]), ?_⟩
+  rw [hc]; rfl
+
+theorem registry_class_range (d : Dep) (r : VRange) (hc : d.constraint = .single (.rng r)) (hwf : r.WF) (hne : r.NE)
+    (htidy : r.Tidy) (ht : (RC.rng r).TextOK) (hp : r.isSingleWildcardRange = false) (hany : r.isAny = false) :
+    CBody d (rangeToks r) ∧ VParser.parseConstraint (ctextOf (rangeToks r)) = .ok d.constraint := by
+  rw [hc]; exact cbody_range d r hc hwf hne htidy ht hp hany
+
+theorem registry_class_version (d : Dep) (v : Version) (hc : d.constraint = .single (.ver v)) (ht : TextOK v) :
+    CBody d ['=' :: '=' :: v.text.toList] ∧
+      VParser.parseConstraint (ctextOf ['=' :: '=' :: v.text.toList]) = .ok d.constraint := by
+  rw [hc]; exact cbody_version d v hc ht
+
+/-! non-vacuity: `Foo_Bar[a-b] (>=1.0,<2.0)` meets every hypothesis of `dep_roundtrip_registry_identical` through
+`registry_class_range` -/
+private def v10 : Version := ⟨0, [1, 0], none, none, none, none, "1.0"⟩
+private def v20 : Version := ⟨0, [2, 0], none, none, none, none, "2.0"⟩
+private def r12 : VRange := ⟨some v10, some v20, true, false⟩
+private def exDep : Dep :=
+  { spec := { prettyName := "Foo_Bar", name := "foo-bar", sourceType := none, sourceUrl := none, sourceReference := none,
+              sourceResolvedReference := none, sourceSubdirectory := none, features := ["a-b"] },
+    constraint := .single (.rng r12), prettyConstraint := ">=1.0,<2.0", marker := .any, pythonVersions := "*",
+    pythonConstraint := VC.any, inExtras := [], optional := false, activated := true, kind := .registry }
+
+private theorem exDep_wf : RegWF exDep :=
+  { kind := rfl, src := rfl, name := by decide, ident := ⟨'F', "oo_Bar".toList, rfl, by decide, by decide⟩,
+    feats := by decide, featIdent := by intro f hf; simp [exDep] at hf; subst hf; exact ⟨'a', "-b".toList, rfl, by decide, by decide⟩,
+    inExtras := rfl }
+
+private theorem v10_text : TextOK v10 :=
+  textOK_of_parse "1.0" v10 (by decide +kernel) (by decide) ⟨'1', _, rfl, by decide⟩ ⟨['1', '.'], '0', rfl, by decide⟩
+private theorem v20_text : TextOK v20 :=
+  textOK_of_parse "2.0" v20 (by decide +kernel) (by decide) ⟨'2', _, rfl, by decide⟩ ⟨['2', '.'], '0', rfl, by decide⟩
+
+example : ((mkRegistryStr "Foo_Bar" ">=1.0,<2.0" ["A_b"]).bind (fun d => d.toPep508)).toOption =
+    some "Foo_Bar[a-b] (>=1.0,<2.0)" := by decide +kernel
+
+example : RegWF exDep ∧ exDep.constraint = .single (.rng r12) ∧ r12.WF ∧ r12.NE ∧ r12.Tidy ∧ (RC.rng r12).TextOK ∧
+    r12.isSingleWildcardRange = false ∧ r12.isAny = false ∧ (∃ s, exDep.constraint.toStr = .ok s) ∧
+    exDep.marker.isAny = true ∧ exDep.pythonVersions = "*" ∧ (exDep.toPep508).toOption = some "Foo_Bar[a-b] (>=1.0,<2.0)" ∧
+    NoComment "Foo_Bar[a-b] (>=1.0,<2.0)".toList := by
+  refine ⟨exDep_wf, rfl, ⟨by unfold VRange.wfB; decide +kernel, ?_⟩, by unfold VRange.NE; decide +kernel,
+    by unfold VRange.Tidy; decide, ?_, by decide +kernel, by decide, ⟨_, memberChars_toStr (.rng r12) (by show r12.isSingleWildcardRange = false; decide +kernel)⟩,
+    rfl, rfl, by decide +kernel, noComment_of_noHash _ (by decide)⟩
+  · intro m M hm hM
+    simp [r12] at hm hM; subst hm; subst hM
+    decide +kernel
+  · intro e he
+    simp [RC.bounds, RC.view, VRange.bounds, RC.min, RC.max, r12] at he
+    rcases he with rfl | rfl
+    · exact v10_text
+    · exact v20_text
+
+/-- **round trip of a registry dependency whose constraint excludes one version** (`!=V`, possibly inside a
+conjunction that the algebra reduced to it): the re-parsed constraint is `<V || >V`, which admits exactly the versions
+the original admits — for every well-formed version regular for the original's bounds (C15 `union_ne_text_roundtrip`) -/
+theorem dep_roundtrip_registry_ne (d : Dep) (rs : List RC) (v : Version) (h : RegWF d) (hc : d.constraint = .union rs)
+    (hu : UnionText rs) (hx : VC.excludedSingleVersion rs = .ok (some v)) (ht : TextOK v)
+    (hany : d.marker.isAny = true) (hpy : d.pythonVersions = "*")
+    (hnc : ∀ t, d.toPep508 = .ok t → NoComment t.toList) :
+    ∃ t, d.toPep508 = .ok t ∧ ∀ d', createFromPep508 t = .ok d' →
+      d'.name = d.name ∧ d'.extras = d.extras ∧ d'.kind = Kind.textual d.kind ∧ sameSource d' d ∧ d'.marker = .any ∧
+      ∀ p, p.wf = true → Regular (boundsOf rs) p → d'.constraint.allows p = d.constraint.allows p := by
+  obtain ⟨hcb, hparse, heqv⟩ := cbody_ne d rs v hc hu hx ht
+  obtain ⟨t, htp, hr⟩ := registry_print_reparse_nomarker d _ h hcb hany hpy hnc
+  refine ⟨t, htp, ?_⟩
+  intro d' hd'
+  obtain ⟨b1, b2, b3, b4, b5, b6⟩ := dep_roundtrip_registry_core d _ none t d' h hr hd'
+  rw [hparse] at b5
+  injection b5 with b5
+  refine ⟨b1, b2, b3, b4, b6, ?_⟩
+  intro p hp hreg
+  rw [← b5, hc]
+  exact heqv p hp hreg
+
+/-- the marker text as printed: neither starts with a blank nor ends with white space (true of every `str(marker)`;
+kept as a side condition, not derived from the printer here) -/
+def MarkerEnds (m : M) : Prop :=
+  ∀ s, m.toStr = .ok s → skipWs s.toList = s.toList ∧ ∃ p z, s.toList = p ++ [z] ∧ isSpace z = false
+
+/-- **round trip of a registry dependency WITH a marker, on the full comparison-operator domain of C13**
+(`FullInvLeaf E`: quotable string / `extra` leaves, `python_version <op> "X.Y"`, `python_full_version <op> "X.Y.Z"`,
+any nesting): for every environment `E` of an interpreter `X.Y.Z` that defines the extras, the re-parsed dependency
+has the same name, extras, kind, source, the constraint read from the printed tokens, and a marker that VALIDATES ON
+`E` EXACTLY AS THE ORIGINAL MARKER.  C13's print/parse theorem (`M.print_ok`, `parseText_toStr`) and C07's `union`
+soundness are used as proved; no leaf-level hypothesis. -/
+theorem dep_roundtrip_registry_marker (d : Dep) (ts : List (List Char)) (h : RegWF d) (hb : CBody d ts)
+    {E : Env} {ex : List String} (hX : E.extras = some ex) {X Y Z : Nat} (hE : EnvPy E X Y Z)
+    (hg : M.Good (FullInvLeaf E) d.marker) (syn : Syn) (hsyn : M.toSyn d.marker = some syn)
+    (hends : MarkerEnds d.marker) (hany : d.marker.isAny = false) (hne : d.marker.isEmpty = false)
+    (xs : Option (List (List (String × String)))) (hx : convertMarkersFor "extra" d.marker = .ok xs)
+    (hnc : ∀ t, d.toPep508 = .ok t → NoComment t.toList) :
+    ∃ t, d.toPep508 = .ok t ∧ ∀ d', createFromPep508 t = .ok d' →
+      d'.name = d.name ∧ d'.extras = d.extras ∧ d'.kind = Kind.textual d.kind ∧ sameSource d' d ∧
+      VParser.parseConstraint (ctextOf ts) = .ok d'.constraint ∧
+      d'.marker.validate E = d.marker.validate E := by
+  have S := leafSpec_fullInv hX hE (pairSound_py hE)
+  obtain ⟨s, hs1, hs2, _⟩ := M.parseText_toStr S (printOK_fullInv hX) (fun l hl => lexable_fullInv l hl) hg hsyn
+  obtain ⟨he1, he2⟩ := hends s hs1
+  have hmt : MText d.marker s syn := ⟨hs1, ⟨he1, by rw [String.ofList_toList]; exact hs2⟩, he2⟩
+  obtain ⟨t, htp, hr⟩ := registry_print_reparse_marker d ts h hb hany hne s syn hmt xs hx hnc
+  refine ⟨t, htp, ?_⟩
+  intro d' hd'
+  obtain ⟨b1, b2, b3, b4, b5, b6⟩ := dep_roundtrip_registry_core d ts (some syn) t d' h hr hd'
+  refine ⟨b1, b2, b3, b4, b5, ?_⟩
+  have hcm : compactTop syn = .ok d'.marker := b6
+  obtain ⟨g', e'⟩ := compactTop_printed S (printOK_fullInv hX) hg hsyn d'.marker hcm
+  rw [M.validate_eq_sem E d'.marker (M.good_mono (fun l hl => fullInvLeaf_evaluable hX hE hl) d'.marker g'),
+    M.validate_eq_sem E d.marker (M.good_mono (fun l hl => fullInvLeaf_evaluable hX hE hl) d.marker hg), e']
+
+/-! non-vacuity of `dep_roundtrip_registry_marker`: `Foo_Bar[a-b] (>=1.0,<2.0) ; python_version >= "3.8"` on CPython 3.8.1 -/
+private def envPy : Env := ⟨[("python_version", "3.8"), ("python_full_version", "3.8.1")], some []⟩
+private def mPy : M := .leaf (.single (pvLeafOf .ge ">=" 3 8))
+private def exDepM : Dep := { exDep with marker := mPy }
+
+private theorem mPy_str : M.toStr mPy = .ok "python_version >= \"3.8\"" := by
+  have : (M.toStr mPy).toOption = some "python_version >= \"3.8\"" := by decide +kernel
+  cases hh : M.toStr mPy with
+  | error e => rw [hh] at this; cases this
+  | ok b => rw [hh] at this; simp [Except.toOption] at this; rw [this]
+
+example : RegWF exDepM ∧ envPy.extras = some [] ∧ EnvPy envPy 3 8 1 ∧ M.Good (FullInvLeaf envPy) exDepM.marker ∧
+    (∃ syn, M.toSyn exDepM.marker = some syn) ∧ MarkerEnds exDepM.marker ∧ exDepM.marker.isAny = false ∧
+    exDepM.marker.isEmpty = false ∧ convertMarkersFor "extra" exDepM.marker = .ok none := by
+  refine ⟨{ exDep_wf with }, rfl, ⟨by decide +kernel, by decide +kernel⟩, ?_, ⟨_, rfl⟩, ?_, rfl, rfl, ?_⟩
+  · show FullInvLeaf envPy _
+    exact Or.inr (Or.inl ⟨.ge, ">=", 3, 8, by decide, rfl⟩)
+  · intro s hs
+    have hs' : M.toStr mPy = .ok s := hs
+    rw [mPy_str] at hs'
+    injection hs' with hs'
+    subst hs'
+    exact ⟨by decide, "python_version >= \"3.8".toList, '"', by decide, by decide⟩
+  · have h : dnf defaultFuel [] mPy = .ok mPy := by
+      unfold defaultFuel mPy
+      rw [dnf]
+      all_goals (intro ms h; cases h)
+    show convertMarkersFor "extra" mPy = .ok none
+    unfold convertMarkersFor
+    rw [h]
+    simp [bind, Except.bind, pure, Except.pure, membersIfUnion, mPy, conjPairs, convKey, pvLeafOf, Leaf.name]
 
 /-! ## where the code itself breaks the round trip -/
 
